@@ -3,6 +3,9 @@ package main
 // C14 (hooks balanced, enumeration = live links) and C15 (a finished link leaves nothing behind).
 
 import (
+	"github.com/pojntfx/panrpc/go/pkg/rpc"
+	"io"
+	"encoding/json"
 	"context"
 	"fmt"
 	"math/rand"
@@ -345,6 +348,21 @@ func runTeardownSuite(rep *Report, tier string, seed int64, prop string) {
 	if prop == "C14" {
 		c14EnumDuringTeardown(rep)
 	}
+	// a link whose context is ALREADY cancelled when Link is called (or is cancelled while it sets up)
+	for _, api := range apis() {
+		for _, when := range []string{"before", "during"} {
+			rep.Evaluations++
+			rep.Distinct++
+			p14, p15 := preCancelledLink(api, when)
+			probs := p14
+			if prop == "C15" {
+				probs = p15
+			}
+			for _, m := range probs {
+				rep.addViolation("property", prop+":pre-cancelled:"+api, "link context cancelled "+when+" set-up: "+m, map[string]any{"suite": "pre-cancelled-link", "api": api, "cancelled": when})
+			}
+		}
+	}
 	var pendingModels []modelCheck
 	var pendingCases []string
 	defer func() { validateRg(rep, prop, pendingModels, pendingCases) }()
@@ -468,4 +486,88 @@ func ctxWatchers() int {
 		buf = make([]byte, 2*len(buf))
 	}
 	return strings.Count(string(buf), "context.(*cancelCtx).propagateCancel.func")
+}
+
+// preCancelledLink: Link is called with a context that is already done (or that is cancelled right after the
+// call).  Link returns; afterwards the registry is as if the link had never been: enumeration works (nobody
+// holds its lock) and shows nothing, every connect notification has its disconnect, no goroutine remains.
+func preCancelledLink(api, when string) (p14, p15 []string) {
+	before := len(panrpcGoroutines())
+	codec := jsonRaw()
+	side := newSide[json.RawMessage]("A")
+	ctx, cancel := context.WithCancel(context.Background())
+	if when == "before" {
+		cancel()
+	}
+	qs := [4]*Queue{NewQueue(), NewQueue(), NewQueue(), NewQueue()}
+	pr, pw := io.Pipe()
+	errc := make(chan error, 1)
+	go func() {
+		if api == "message" {
+			errc <- side.Reg.LinkMessage(ctx,
+				func(t json.RawMessage) error { return qs[0].Put(t) }, func(t json.RawMessage) error { return qs[1].Put(t) },
+				func() (json.RawMessage, error) { b, e := qs[2].Get(); return b, e }, func() (json.RawMessage, error) { b, e := qs[3].Get(); return b, e },
+				codec.Marshal, codec.Unmarshal, linkHooks(side, true))
+		} else {
+			dec := json.NewDecoder(pr)
+			errc <- side.Reg.LinkStream(ctx,
+				func(m rpc.Message[json.RawMessage]) error { return nil },
+				func(m *rpc.Message[json.RawMessage]) error { return dec.Decode(m) },
+				codec.Marshal, codec.Unmarshal, linkHooks(side, true))
+		}
+	}()
+	if when == "during" {
+		cancel()
+	}
+	select {
+	case <-errc:
+	case <-time.After(watchdog):
+		p15 = append(p15, "Link did not return")
+		p14 = append(p14, "Link did not return")
+	}
+	// the application closes the transport
+	for _, q := range qs {
+		q.Close(io.EOF)
+	}
+	pw.Close()
+	time.Sleep(5 * time.Millisecond)
+	enum := make(chan int, 1)
+	go func() { enum <- len(side.Remotes()) }()
+	select {
+	case n := <-enum:
+		// give the deferred unregister a moment (it runs after both read loops have left)
+		dl := time.Now().Add(500 * time.Millisecond)
+		for n != 0 && time.Now().Before(dl) {
+			time.Sleep(2 * time.Millisecond)
+			n = len(side.Remotes())
+		}
+		if n != 0 {
+			p14 = append(p14, fmt.Sprintf("%d remote(s) still enumerated after the link ended", n))
+			p15 = append(p15, fmt.Sprintf("%d remote(s) still enumerated after the link ended", n))
+		}
+	case <-time.After(watchdog):
+		p14 = append(p14, "ForRemotes blocks for ever after the link ended (the registry's lock was never released)")
+		p15 = append(p15, "ForRemotes blocks for ever after the link ended (the registry's lock was never released)")
+		return
+	}
+	c, d := 0, 0
+	for _, h := range side.Hooks() {
+		switch h.Kind {
+		case "reg.connect", "link.connect":
+			c++
+		case "reg.disconnect", "link.disconnect":
+			d++
+		}
+	}
+	if c != d {
+		p14 = append(p14, fmt.Sprintf("%d connect notification(s) but %d disconnect notification(s)", c, d))
+	}
+	dl := time.Now().Add(time.Second)
+	for len(panrpcGoroutines()) > before && time.Now().Before(dl) {
+		time.Sleep(2 * time.Millisecond)
+	}
+	if left := panrpcGoroutines(); len(left) > before {
+		p15 = append(p15, fmt.Sprintf("%d goroutine(s) left behind: %s", len(left)-before, topFrames(left[0])))
+	}
+	return
 }
